@@ -1,6 +1,7 @@
 import Mrpro.Lemmas.SrcL
 import Mrpro.Model.Load
 import Mrpro.Lemmas.LoadL
+import Mrpro.Lemmas.PulseqL
 /-! # C14 — loading raw data is faithful to acquisition indices, not to file order -/
 namespace C14
 open M
@@ -80,5 +81,40 @@ theorem rpe_order_preserved (shifts : List Rat) (centre : Int) (k1 k1' k2 : Nat)
   M.rpeKrad_strictMono shifts centre k1 k1' k2 hs h
 
 example : M.rpeKrad [0, 1/2, 1/4, 3/4] 2 3 5 = 3 / 2 ∧ M.rpeKrad [0, 1/2, 1/4, 3/4] 2 2 5 = 0 := by decide +kernel
+
+/-! ### Pulseq trajectories (`KTrajectoryPulseq`): a readout lies at the sequence event it was computed from -/
+
+/-- the rescaling expression and the "not encoded" threshold translated from the source are the model's, for all values
+(and the translated expression does not depend on the extent of the other directions) -/
+theorem pulseq_scale_is_source (x e km all : Rat) :
+    M.Src.pulseq_scale x e km all = M.pulseqScale x e km ∧ M.Src.pulseq_threshold = M.pulseqThreshold :=
+  ⟨M.src_pulseq_scale x e km all, M.src_pulseq_threshold⟩
+
+/-- **Cartesian phase encoding**: a readout played out at phase-encoding step `i` of `n` (k-space position `d·(i − n/2)`,
+any step size `d`, any order and repetition of the steps, step 0 present) is placed at exactly `i − n/2` — whatever the
+extents of the other directions are, as long as this direction counts as encoded -/
+theorem pulseq_cartesian_steps (n : Nat) (hn : 0 < n) (d : Rat) (hd : 0 < d) (all : Rat) (steps : List Nat)
+    (h0 : 0 ∈ steps) (hlt : ∀ i ∈ steps, i < n) (hall : M.pulseqThreshold * all < d * (n : Rat) / 2) :
+    M.pulseqAxis (steps.map (fun i : Nat => d * ((i : Rat) - (n : Rat) / 2))) n all
+      = steps.map (fun i : Nat => (i : Rat) - (n : Rat) / 2) :=
+  M.pulseqAxis_cartesian_steps n hn d hd all steps h0 hlt hall
+
+/-- a direction is rescaled with its own extent only -/
+theorem pulseq_direction_independent (k : List Rat) (enc : Nat) (a b : Rat)
+    (ha : M.pulseqThreshold * a < M.maxAbs k) (hb : M.pulseqThreshold * b < M.maxAbs k) :
+    M.pulseqAxis k enc a = M.pulseqAxis k enc b := M.pulseqAxis_indep k enc a b ha hb
+
+/-- every position lies inside the encoding matrix, and the extent of an encoded direction is exactly `enc/2` -/
+theorem pulseq_inside_matrix (k : List Rat) (enc : Nat) (all : Rat) (hall : 0 ≤ all) :
+    (∀ y ∈ M.pulseqAxis k enc all, M.absR y ≤ (enc : Rat) / 2)
+    ∧ (M.pulseqThreshold * all < M.maxAbs k → M.maxAbs (M.pulseqAxis k enc all) = (enc : Rat) / 2) :=
+  ⟨M.pulseqAxis_abs_le k enc all hall, M.pulseqAxis_extent k enc all hall⟩
+
+/-- a direction the sequence does not encode (numerical noise only) is exactly zero — never amplified -/
+theorem pulseq_unencoded_zero (k : List Rat) (enc : Nat) (all : Rat) (h : M.maxAbs k ≤ M.pulseqThreshold * all) :
+    M.pulseqAxis k enc all = k.map (fun _ => 0) := M.pulseqAxis_unencoded k enc all h
+
+example : M.pulseqTraj [-16, -15, 15] [-30, 25, -30] [0, 1/1000000000, 0] 32 12 4
+    = ([0, 0, 0], [-6, 5, -6], [-16, -15, 15]) := by decide +kernel
 
 end C14
